@@ -119,6 +119,14 @@ func (s *Default) addRuleList(
 		return
 	}
 
+	if fl.url == nil {
+		// The index item is invalid and has already been reported.  Keep using
+		// the previous version of the filter, as with the other errors.
+		s.setPrevRuleList(newRuleLists, fl.id)
+
+		return
+	}
+
 	fltIDStr := string(fl.id)
 	cacheID := path.Join(cachePrefixRuleList, fltIDStr)
 	cache := rulelist.NewManagedResultCache(
